@@ -17,6 +17,10 @@ CFG = {
              out='VERIF_C03CRC_OUT', timeout='600s', bad='mismatches', cases='first_mismatches',
              obligation='bounded:C03.crc-definition',
              what='Point.CRC equals the documented definition, ignores Data/Tombstone/Origin and depends on time, type, key, text, value')],
+ 'C01': [dict(pkg='./store', test='TestVerifC01Histories', src='/verif/bounded/c01_history_test.go', dst='/repo/store/zz_verif_c01h_test.go',
+             out='VERIF_C01H_OUT', timeout='1500s', bad='violations', cases='violation_classes',
+             obligation='bounded:C01.delivery-histories',
+             what='R: after any delivery history (orders, batch cuts, duplicates, stale re-sends) the points read for a node / an edge hold exactly one point per identity (type, key with "" read as "0"), equal in every field to the newest delivered point of that identity, and nothing else')],
  'C15': [dict(pkg='./client', test='TestVerifC15ExportImport', src='/verif/bounded/c15_export_import_test.go', dst='/repo/client/zz_verif_c15_test.go',
              out='VERIF_C15_OUT', timeout='1500s', bad='mismatches', cases='mismatch_classes', netns=True,
              obligation='bounded:C15.export-import',
